@@ -21,9 +21,9 @@ func init() {
 // C01 (exit status, no panic, go build), C02 (additive, well-formed blocks), C05 (ids, components,
 // service start), C13 (only eligible paths differ) → goat clean → oracles of C06.
 func e2eTrack(c *e2eCtx, decoys bool) error {
-	n := 32
+	n := 42
 	if c.thorough() {
-		n = 400
+		n = 420
 	}
 	c.res.Rule = fmt.Sprintf("%d generated in-scope multi-package projects (1-4 mains incl. root main, 2-5 libraries, one imported by no main, "+
 		"assembly-backed body-less declarations, decoys=%v) × old/new revision (units added/modified with p=0.25, new files) × configuration drawn from "+
@@ -52,7 +52,21 @@ func e2eTrack(c *e2eCtx, decoys bool) error {
 			c.violate("", "harness: "+err.Error(), nil)
 			return
 		}
-		if r.Intn(3) == 0 { // select a subset of mains
+		// a main whose directory extends or lies below another main's: select only the shorter one
+		directed := false
+		if r.Intn(2) == 0 {
+			for _, a := range s.p.Pkgs {
+				for _, b := range s.p.Pkgs {
+					if a.IsMain && b.IsMain && a != b && a.Dir != "." && strings.HasPrefix(b.Dir, a.Dir) && !directed {
+						s.cfg.MainEntries = []string{a.Dir}
+						proj.WriteConfig(s.dir, s.cfg)
+						s.desc = cfgDesc(s.cfg)
+						directed = true
+					}
+				}
+			}
+		}
+		if !directed && r.Intn(3) == 0 { // select a subset of mains
 			var sel []string
 			for _, pk := range s.p.Pkgs {
 				if pk.IsMain && r.Intn(2) == 0 {
@@ -227,7 +241,7 @@ func (c *e2eCtx) trackAndJudge(s *scenario, decoys bool, r *rand.Rand) {
 		}
 	}
 	// ---- what happens between track and clean (C06 quantifies over these histories)
-	variant := r.Intn(7)
+	variant := s.id % 7 // every history kind in turn
 	c.count(fmt.Sprintf("before-clean:%d", variant))
 	{
 		files := goFilesOf(after, s.cfg)
@@ -321,6 +335,12 @@ func (c *e2eCtx) trackAndJudge(s *scenario, decoys bool, r *rand.Rand) {
 		}
 		if !eligible(path, s.cfg) {
 			c.violate("C13", path+" was modified by clean although it is not eligible", rp(nil))
+		}
+	}
+	// files that are not Go sources are never modified or deleted
+	for _, path := range sortedKeys(s.newTree) {
+		if !strings.HasSuffix(path, ".go") && cleaned[path] != s.newTree[path] {
+			c.violate("C13,C06", fmt.Sprintf("%s (not a Go file) was modified or deleted by track / patch / clean", path), rp(nil))
 		}
 	}
 	// clean again: writes nothing
